@@ -506,6 +506,21 @@ func init() {
 						}
 					}
 				}
+				// after a logout the session is logged on again only through a new Logon
+				for role := 0; role <= 1; role++ {
+					for how := 0; how <= 2; how++ {
+						for kind := 1; kind < 8; kind++ {
+							j := J(sessPkg, "H_C06_afterlogout", role, how, kind, 0)
+							j.EngineReplay = true
+							jobs = append(jobs, j)
+						}
+						for _, dmg := range []int{1, 2, 5} {
+							j := J(sessPkg, "H_C06_afterlogout", role, how, 2, dmg)
+							j.EngineReplay = true
+							jobs = append(jobs, j)
+						}
+					}
+				}
 				return jobs
 			},
 			Explanation:  "Symbolic step(s) of the Logon handler. Acceptor: a Logon with symbolic encryption method, heartbeat interval, credentials, reset flag and sequence number, undamaged or damaged, optionally preceded by a first Logon step (refused four ways, or accepted); the application callback approves symbolically or by username. Asserted: IsLogged' <=> (well-formed && method allowed && min<=hb<=max && approved); accepted: first answer is a Logon echoing 108 and 98, logon event once, only ResendRequests may follow; refused: exactly one Reject with RefSeqNum (and RefTagID 98/108 for a parameter refusal), no timers, no event; while logged on: one Reject, settings/timers/events untouched. Initiator: first transmission is the Logon with the configured 108/98/553/554 and MsgSeqNum 1; logged on only after an undamaged Logon comes back, not by any other message kind.",
@@ -565,7 +580,7 @@ func init() {
 			Jobs: func(tier string) []Job {
 				var jobs []Job
 				for role := 0; role <= 1; role++ {
-					for sc := 0; sc <= 4; sc++ {
+					for sc := 0; sc <= 5; sc++ {
 						jobs = append(jobs, J(sessPkg, "H_C15_logout", role, sc, 0))
 						if sc != 1 {
 							jobs = append(jobs, J(sessPkg, "H_C15_logout", role, sc, 1))
